@@ -69,7 +69,10 @@ package rib
 
 // holderWF: representation invariant of one network-instance RIB.
 //@ pred holderWF(h *RIBHolder) = h != nil && h.r != nil && h.r.Afts != nil && h.refCounts != nil
-//@   && h.refCounts.NextHop != nil && h.refCounts.NextHopGroup != nil
+//@   && h.refCounts.NextHop != nil && h.refCounts.NextHopGroup != nil && tablesAllocated(h.r.Afts)
+//@ pred nilOrAllocated(x Int) = x == 0 || (0 < x && x < top)
+//@ pred tablesAllocated(A *aft.Afts) = nilOrAllocated(A.Ipv4Entry) && nilOrAllocated(A.Ipv6Entry) && nilOrAllocated(A.LabelEntry)
+//@   && nilOrAllocated(A.NextHopGroup) && nilOrAllocated(A.NextHop)
 
 //@ pred wrap64(x Int) = x % 18446744073709551616
 
@@ -305,5 +308,259 @@ package rib
 //@ ensures[others-kept] othersKept_nh(r.r.Afts, index)
 //@ ensures[wf] holderWF(r)
 //@ assigns r.r.Afts.NextHop, contents(r.r.Afts.NextHop)
+//@ props C01 C12:safety
+
+
+// ---- generated: candidate construction, Add/Delete per table ----
+//@ ghostvar hookCount Int
+//@ fnfield RIBHolder.postChangeHook
+//@ why client-supplied notification hook: arbitrary code assumed not to call back into the RIB; each call is one ghost event
+//@ ensures hookCount == old(hookCount) + 1
+//@ assigns hookCount
+//@ fnfield RIBHolder.checkFn
+//@ why the holder's check function is the closure built by NewRIBHolder around RIB.checkFn (canResolve / canDelete); it reads the RIB and modifies nothing
+//@ assigns nothing
+//@ fnfield unixTS
+//@ why the clock returns an arbitrary int64
+
+//@ pred fromProto_v4(E *aft.Afts_Ipv4Entry, p *aftpb.Afts_Ipv4EntryKey) = E.GetPrefix() == p.GetPrefix() && E.GetNextHopGroup() == p.GetIpv4Entry().GetNextHopGroup().GetValue() && E.GetNextHopGroupNetworkInstance() == p.GetIpv4Entry().GetNextHopGroupNetworkInstance().GetValue()
+//@ pred fromProto_v6(E *aft.Afts_Ipv6Entry, p *aftpb.Afts_Ipv6EntryKey) = E.GetPrefix() == p.GetPrefix() && E.GetNextHopGroup() == p.GetIpv6Entry().GetNextHopGroup().GetValue() && E.GetNextHopGroupNetworkInstance() == p.GetIpv6Entry().GetNextHopGroupNetworkInstance().GetValue()
+//@ pred fromProto_mpls(E *aft.Afts_LabelEntry, p *aftpb.Afts_LabelEntryKey) = E.Label == boxed(aft.UnionUint32, p.GetLabelUint64()) && E.GetNextHopGroup() == p.GetLabelEntry().GetNextHopGroup().GetValue() && E.GetNextHopGroupNetworkInstance() == p.GetLabelEntry().GetNextHopGroupNetworkInstance().GetValue()
+//@ pred fromProto_nhg(E *aft.Afts_NextHopGroup, p *aftpb.Afts_NextHopGroupKey) = E.GetId() == p.GetId() && (forall i: uint64 :: i in dom(E.NextHop) <==> (exists j in 0..len(p.GetNextHopGroup().GetNextHop()) :: p.GetNextHopGroup().GetNextHop()[j].GetIndex() == i)) && E.GetBackupNextHopGroup() == p.GetNextHopGroup().GetBackupNextHopGroup().GetValue() && ((E.BackupNextHopGroup == nil) <==> (p.GetNextHopGroup().GetBackupNextHopGroup() == nil))
+//@ pred fromProto_nh(E *aft.Afts_NextHop, p *aftpb.Afts_NextHopKey) = E.GetIndex() == p.GetIndex()
+
+//@ unit candidateRIB
+//@ trusted the proto -> gNMI paths -> ygot struct pipeline (protomap.PathsFromProto, ytypes.SetNode, Validate) is reflection over generated schemas and outside the verifier's reach; its key and reference fields are assumed to equal the proto's
+//@ requires a != nil
+//@ ensures[fresh] result1 == nil ==> result0 != nil && fresh(result0) && result0.Afts != nil && fresh(result0.Afts)
+//@ ensures[fresh-v4] result1 == nil ==> result0.Afts.Ipv4Entry == nil || fresh(result0.Afts.Ipv4Entry)
+//@ ensures[fresh-v6] result1 == nil ==> result0.Afts.Ipv6Entry == nil || fresh(result0.Afts.Ipv6Entry)
+//@ ensures[fresh-mpls] result1 == nil ==> result0.Afts.LabelEntry == nil || fresh(result0.Afts.LabelEntry)
+//@ ensures[fresh-nhg] result1 == nil ==> result0.Afts.NextHopGroup == nil || fresh(result0.Afts.NextHopGroup)
+//@ ensures[fresh-nh] result1 == nil ==> result0.Afts.NextHop == nil || fresh(result0.Afts.NextHop)
+//@ ensures[v4] result1 == nil && len(a.Ipv4Entry) == 1 && a.Ipv4Entry[0] != nil && len(a.Ipv6Entry) == 0 && len(a.LabelEntry) == 0 && len(a.NextHopGroup) == 0 && len(a.NextHop) == 0 ==> candOnly_v4(result0.Afts, a.Ipv4Entry[0].GetPrefix())
+//@   && fresh(result0.Afts.Ipv4Entry[a.Ipv4Entry[0].GetPrefix()]) && fromProto_v4(result0.Afts.Ipv4Entry[a.Ipv4Entry[0].GetPrefix()], a.Ipv4Entry[0])
+//@ ensures[v6] result1 == nil && len(a.Ipv6Entry) == 1 && a.Ipv6Entry[0] != nil && len(a.Ipv4Entry) == 0 && len(a.LabelEntry) == 0 && len(a.NextHopGroup) == 0 && len(a.NextHop) == 0 ==> candOnly_v6(result0.Afts, a.Ipv6Entry[0].GetPrefix())
+//@   && fresh(result0.Afts.Ipv6Entry[a.Ipv6Entry[0].GetPrefix()]) && fromProto_v6(result0.Afts.Ipv6Entry[a.Ipv6Entry[0].GetPrefix()], a.Ipv6Entry[0])
+//@ ensures[mpls] result1 == nil && len(a.LabelEntry) == 1 && a.LabelEntry[0] != nil && len(a.Ipv4Entry) == 0 && len(a.Ipv6Entry) == 0 && len(a.NextHopGroup) == 0 && len(a.NextHop) == 0 ==> candOnly_mpls(result0.Afts, boxed(aft.UnionUint32, a.LabelEntry[0].GetLabelUint64()))
+//@   && fresh(result0.Afts.LabelEntry[boxed(aft.UnionUint32, a.LabelEntry[0].GetLabelUint64())]) && fromProto_mpls(result0.Afts.LabelEntry[boxed(aft.UnionUint32, a.LabelEntry[0].GetLabelUint64())], a.LabelEntry[0]) && a.LabelEntry[0].GetLabelUint64() < 4294967296 && istype(a.LabelEntry[0].Label, *aftpb.Afts_LabelEntryKey_LabelUint64)
+//@ ensures[nhg] result1 == nil && len(a.NextHopGroup) == 1 && a.NextHopGroup[0] != nil && len(a.Ipv4Entry) == 0 && len(a.Ipv6Entry) == 0 && len(a.LabelEntry) == 0 && len(a.NextHop) == 0 ==> candOnly_nhg(result0.Afts, a.NextHopGroup[0].GetId())
+//@   && fresh(result0.Afts.NextHopGroup[a.NextHopGroup[0].GetId()]) && fromProto_nhg(result0.Afts.NextHopGroup[a.NextHopGroup[0].GetId()], a.NextHopGroup[0])
+//@ ensures[nh] result1 == nil && len(a.NextHop) == 1 && a.NextHop[0] != nil && len(a.Ipv4Entry) == 0 && len(a.Ipv6Entry) == 0 && len(a.LabelEntry) == 0 && len(a.NextHopGroup) == 0 ==> candOnly_nh(result0.Afts, a.NextHop[0].GetIndex())
+//@   && fresh(result0.Afts.NextHop[a.NextHop[0].GetIndex()]) && fromProto_nh(result0.Afts.NextHop[a.NextHop[0].GetIndex()], a.NextHop[0])
+//@ assigns nothing
+//@ props C01 C02 C07
+
+//@ unit RIBHolder.AddIPv4
+//@ requires holderWF(r) && unixTS != nil
+//@ ensures[nil] e == nil ==> !result0 && result2 != nil
+//@ ensures[err-not-installed] result2 != nil ==> !result0
+//@ ensures[no-trace] !result0 ==> kept_v4(r.r.Afts) && hookCount == old(hookCount)
+//@ ensures[installed] result0 ==> e != nil && e.GetPrefix() in dom(r.r.Afts.Ipv4Entry) && r.r.Afts.Ipv4Entry[e.GetPrefix()] != nil && fresh(r.r.Afts.Ipv4Entry[e.GetPrefix()]) && othersKept_v4(r.r.Afts, e.GetPrefix())
+//@ ensures[attrs] result0 ==> fromProto_v4(r.r.Afts.Ipv4Entry[e.GetPrefix()], e)
+//@ ensures[orig] result0 ==> result1 == old(r.r.Afts.Ipv4Entry[e.GetPrefix()])
+//@ ensures[explicit-replace] explicitReplace && e != nil && !(e.GetPrefix() in old(dom(r.r.Afts.Ipv4Entry))) ==> !result0 && result2 != nil
+//@ ensures[hook] result0 ==> hookCount == old(hookCount) + ite(old(r.postChangeHook) != nil, 1, 0)
+//@ ensures[wf] holderWF(r)
+//@ loop 1 invariant (forall j in visited :: j == e.GetPrefix()) && hookCount == old(hookCount) + ite(e.GetPrefix() in visited, 1, 0)
+//@ loop 1 invariant e != nil && holderWF(r) && e.GetPrefix() in dom(r.r.Afts.Ipv4Entry) && r.r.Afts.Ipv4Entry[e.GetPrefix()] != nil && fresh(r.r.Afts.Ipv4Entry[e.GetPrefix()]) && othersKept_v4(r.r.Afts, e.GetPrefix())
+//@ loop 1 invariant fromProto_v4(r.r.Afts.Ipv4Entry[e.GetPrefix()], e) && candOnly_v4(nr.Afts, e.GetPrefix()) && nr != nil && nr.Afts != nil && r.postChangeHook != nil
+//@ assigns r.r.Afts.Ipv4Entry, contents(r.r.Afts.Ipv4Entry), hookCount
+//@ props C01 C02 C16 C12:safety
+
+//@ unit RIBHolder.AddIPv6
+//@ requires holderWF(r) && unixTS != nil
+//@ ensures[nil] e == nil ==> !result0 && result2 != nil
+//@ ensures[err-not-installed] result2 != nil ==> !result0
+//@ ensures[no-trace] !result0 ==> kept_v6(r.r.Afts) && hookCount == old(hookCount)
+//@ ensures[installed] result0 ==> e != nil && e.GetPrefix() in dom(r.r.Afts.Ipv6Entry) && r.r.Afts.Ipv6Entry[e.GetPrefix()] != nil && fresh(r.r.Afts.Ipv6Entry[e.GetPrefix()]) && othersKept_v6(r.r.Afts, e.GetPrefix())
+//@ ensures[attrs] result0 ==> fromProto_v6(r.r.Afts.Ipv6Entry[e.GetPrefix()], e)
+//@ ensures[orig] result0 ==> result1 == old(r.r.Afts.Ipv6Entry[e.GetPrefix()])
+//@ ensures[explicit-replace] explicitReplace && e != nil && !(e.GetPrefix() in old(dom(r.r.Afts.Ipv6Entry))) ==> !result0 && result2 != nil
+//@ ensures[hook] result0 ==> hookCount == old(hookCount) + ite(old(r.postChangeHook) != nil, 1, 0)
+//@ ensures[wf] holderWF(r)
+//@ loop 1 invariant (forall j in visited :: j == e.GetPrefix()) && hookCount == old(hookCount) + ite(e.GetPrefix() in visited, 1, 0)
+//@ loop 1 invariant e != nil && holderWF(r) && e.GetPrefix() in dom(r.r.Afts.Ipv6Entry) && r.r.Afts.Ipv6Entry[e.GetPrefix()] != nil && fresh(r.r.Afts.Ipv6Entry[e.GetPrefix()]) && othersKept_v6(r.r.Afts, e.GetPrefix())
+//@ loop 1 invariant fromProto_v6(r.r.Afts.Ipv6Entry[e.GetPrefix()], e) && candOnly_v6(nr.Afts, e.GetPrefix()) && nr != nil && nr.Afts != nil && r.postChangeHook != nil
+//@ assigns r.r.Afts.Ipv6Entry, contents(r.r.Afts.Ipv6Entry), hookCount
+//@ props C01 C02 C16 C12:safety
+
+//@ unit RIBHolder.AddMPLS
+//@ requires holderWF(r) && unixTS != nil
+//@ requires[wire-valid] e != nil ==> oneofOK(e.Label)
+//@ ensures[nil] e == nil ==> !result0 && result2 != nil
+//@ ensures[err-not-installed] result2 != nil ==> !result0
+//@ ensures[no-trace] !result0 ==> kept_mpls(r.r.Afts) && hookCount == old(hookCount)
+//@ ensures[installed] result0 ==> e != nil && boxed(aft.UnionUint32, e.GetLabelUint64()) in dom(r.r.Afts.LabelEntry) && r.r.Afts.LabelEntry[boxed(aft.UnionUint32, e.GetLabelUint64())] != nil && fresh(r.r.Afts.LabelEntry[boxed(aft.UnionUint32, e.GetLabelUint64())]) && othersKept_mpls(r.r.Afts, boxed(aft.UnionUint32, e.GetLabelUint64()))
+//@ ensures[attrs] result0 ==> fromProto_mpls(r.r.Afts.LabelEntry[boxed(aft.UnionUint32, e.GetLabelUint64())], e)
+//@ ensures[orig] result0 ==> result1 == old(r.r.Afts.LabelEntry[boxed(aft.UnionUint32, e.GetLabelUint64())])
+//@ ensures[explicit-replace] explicitReplace && e != nil && !(boxed(aft.UnionUint32, e.GetLabelUint64()) in old(dom(r.r.Afts.LabelEntry))) ==> !result0 && result2 != nil
+//@ ensures[hook] result0 ==> hookCount == old(hookCount) + ite(old(r.postChangeHook) != nil, 1, 0)
+//@ ensures[wf] holderWF(r)
+//@ loop 1 invariant (forall j in visited :: j == boxed(aft.UnionUint32, e.GetLabelUint64())) && hookCount == old(hookCount) + ite(boxed(aft.UnionUint32, e.GetLabelUint64()) in visited, 1, 0)
+//@ loop 1 invariant e != nil && holderWF(r) && boxed(aft.UnionUint32, e.GetLabelUint64()) in dom(r.r.Afts.LabelEntry) && r.r.Afts.LabelEntry[boxed(aft.UnionUint32, e.GetLabelUint64())] != nil && fresh(r.r.Afts.LabelEntry[boxed(aft.UnionUint32, e.GetLabelUint64())]) && othersKept_mpls(r.r.Afts, boxed(aft.UnionUint32, e.GetLabelUint64()))
+//@ loop 1 invariant fromProto_mpls(r.r.Afts.LabelEntry[boxed(aft.UnionUint32, e.GetLabelUint64())], e) && candOnly_mpls(nr.Afts, boxed(aft.UnionUint32, e.GetLabelUint64())) && nr != nil && nr.Afts != nil && r.postChangeHook != nil
+//@ assigns r.r.Afts.LabelEntry, contents(r.r.Afts.LabelEntry), hookCount
+//@ props C01 C02 C16 C12:safety
+
+//@ unit RIBHolder.AddNextHopGroup
+//@ requires holderWF(r) && unixTS != nil
+//@ ensures[nil] e == nil ==> !result0 && result2 != nil
+//@ ensures[err-not-installed] result2 != nil ==> !result0
+//@ ensures[no-trace] !result0 ==> kept_nhg(r.r.Afts) && hookCount == old(hookCount)
+//@ ensures[installed] result0 ==> e != nil && e.GetId() in dom(r.r.Afts.NextHopGroup) && r.r.Afts.NextHopGroup[e.GetId()] != nil && fresh(r.r.Afts.NextHopGroup[e.GetId()]) && othersKept_nhg(r.r.Afts, e.GetId())
+//@ ensures[attrs] result0 ==> fromProto_nhg(r.r.Afts.NextHopGroup[e.GetId()], e)
+//@ ensures[orig] result0 ==> result1 == old(r.r.Afts.NextHopGroup[e.GetId()])
+//@ ensures[explicit-replace] explicitReplace && e != nil && !(e.GetId() in old(dom(r.r.Afts.NextHopGroup))) ==> !result0 && result2 != nil
+//@ ensures[hook] result0 ==> hookCount == old(hookCount) + ite(old(r.postChangeHook) != nil, 1, 0)
+//@ ensures[wf] holderWF(r)
+//@ loop 1 invariant (forall j in visited :: j == e.GetId()) && hookCount == old(hookCount) + ite(e.GetId() in visited, 1, 0)
+//@ loop 1 invariant e != nil && holderWF(r) && e.GetId() in dom(r.r.Afts.NextHopGroup) && r.r.Afts.NextHopGroup[e.GetId()] != nil && fresh(r.r.Afts.NextHopGroup[e.GetId()]) && othersKept_nhg(r.r.Afts, e.GetId())
+//@ loop 1 invariant fromProto_nhg(r.r.Afts.NextHopGroup[e.GetId()], e) && candOnly_nhg(nr.Afts, e.GetId()) && nr != nil && nr.Afts != nil && r.postChangeHook != nil
+//@ assigns r.r.Afts.NextHopGroup, contents(r.r.Afts.NextHopGroup), hookCount
+//@ props C01 C02 C16 C12:safety
+
+//@ unit RIBHolder.AddNextHop
+//@ requires holderWF(r) && unixTS != nil
+//@ ensures[nil] e == nil ==> !result0 && result2 != nil
+//@ ensures[err-not-installed] result2 != nil ==> !result0
+//@ ensures[no-trace] !result0 ==> kept_nh(r.r.Afts) && hookCount == old(hookCount)
+//@ ensures[installed] result0 ==> e != nil && e.GetIndex() in dom(r.r.Afts.NextHop) && r.r.Afts.NextHop[e.GetIndex()] != nil && fresh(r.r.Afts.NextHop[e.GetIndex()]) && othersKept_nh(r.r.Afts, e.GetIndex())
+//@ ensures[attrs] result0 ==> fromProto_nh(r.r.Afts.NextHop[e.GetIndex()], e)
+//@ ensures[orig] result0 ==> result1 == old(r.r.Afts.NextHop[e.GetIndex()])
+//@ ensures[explicit-replace] explicitReplace && e != nil && !(e.GetIndex() in old(dom(r.r.Afts.NextHop))) ==> !result0 && result2 != nil
+//@ ensures[hook] result0 ==> hookCount == old(hookCount) + ite(old(r.postChangeHook) != nil, 1, 0)
+//@ ensures[wf] holderWF(r)
+//@ loop 1 invariant (forall j in visited :: j == e.GetIndex()) && hookCount == old(hookCount) + ite(e.GetIndex() in visited, 1, 0)
+//@ loop 1 invariant e != nil && holderWF(r) && e.GetIndex() in dom(r.r.Afts.NextHop) && r.r.Afts.NextHop[e.GetIndex()] != nil && fresh(r.r.Afts.NextHop[e.GetIndex()]) && othersKept_nh(r.r.Afts, e.GetIndex())
+//@ loop 1 invariant fromProto_nh(r.r.Afts.NextHop[e.GetIndex()], e) && candOnly_nh(nr.Afts, e.GetIndex()) && nr != nil && nr.Afts != nil && r.postChangeHook != nil
+//@ assigns r.r.Afts.NextHop, contents(r.r.Afts.NextHop), hookCount
+//@ props C01 C02 C16 C12:safety
+
+//@ unit RIBHolder.DeleteIPv4
+//@ requires holderWF(r) && unixTS != nil
+//@ ensures[nil] e == nil ==> !result0 && result2 != nil
+//@ ensures[err-not-removed] result2 != nil ==> !result0
+//@ ensures[no-trace] !result0 ==> kept_v4(r.r.Afts) && hookCount == old(hookCount)
+//@ ensures[removed] result0 ==> e != nil && !(e.GetPrefix() in dom(r.r.Afts.Ipv4Entry)) && othersKept_v4(r.r.Afts, e.GetPrefix())
+//@ ensures[orig] result0 ==> result1 == old(r.r.Afts.Ipv4Entry[e.GetPrefix()])
+//@ ensures[hook] result0 ==> hookCount == old(hookCount) + ite(old(r.postChangeHook) != nil, 1, 0)
+//@ ensures[wf] holderWF(r)
+//@ assigns r.r.Afts.Ipv4Entry[e.GetPrefix()], hookCount
+//@ props C01 C03 C16 C12:safety
+
+//@ unit RIBHolder.DeleteIPv6
+//@ requires holderWF(r) && unixTS != nil
+//@ ensures[nil] e == nil ==> !result0 && result2 != nil
+//@ ensures[err-not-removed] result2 != nil ==> !result0
+//@ ensures[no-trace] !result0 ==> kept_v6(r.r.Afts) && hookCount == old(hookCount)
+//@ ensures[removed] result0 ==> e != nil && !(e.GetPrefix() in dom(r.r.Afts.Ipv6Entry)) && othersKept_v6(r.r.Afts, e.GetPrefix())
+//@ ensures[orig] result0 ==> result1 == old(r.r.Afts.Ipv6Entry[e.GetPrefix()])
+//@ ensures[hook] result0 ==> hookCount == old(hookCount) + ite(old(r.postChangeHook) != nil, 1, 0)
+//@ ensures[wf] holderWF(r)
+//@ assigns r.r.Afts.Ipv6Entry[e.GetPrefix()], hookCount
+//@ props C01 C03 C16 C12:safety
+
+//@ unit RIBHolder.DeleteMPLS
+//@ requires holderWF(r) && unixTS != nil
+//@ requires[wire-valid] e != nil ==> oneofOK(e.Label)
+//@ ensures[nil] e == nil ==> !result0 && result2 != nil
+//@ ensures[err-not-removed] result2 != nil ==> !result0
+//@ ensures[no-trace] !result0 ==> kept_mpls(r.r.Afts) && hookCount == old(hookCount)
+//@ ensures[removed] result0 ==> e != nil && !(boxed(aft.UnionUint32, e.GetLabelUint64() % 4294967296) in dom(r.r.Afts.LabelEntry)) && othersKept_mpls(r.r.Afts, boxed(aft.UnionUint32, e.GetLabelUint64() % 4294967296))
+//@ ensures[named-key-only] result0 ==> e.GetLabelUint64() < 4294967296
+//@ ensures[orig] result0 ==> result1 == old(r.r.Afts.LabelEntry[boxed(aft.UnionUint32, e.GetLabelUint64() % 4294967296)])
+//@ ensures[hook] result0 ==> hookCount == old(hookCount) + ite(old(r.postChangeHook) != nil, 1, 0)
+//@ ensures[wf] holderWF(r)
+//@ assigns r.r.Afts.LabelEntry[boxed(aft.UnionUint32, e.GetLabelUint64() % 4294967296)], hookCount
+//@ props C01 C03 C16 C12:safety
+
+//@ unit RIBHolder.DeleteNextHopGroup
+//@ requires holderWF(r) && unixTS != nil
+//@ ensures[nil] e == nil ==> !result0 && result2 != nil
+//@ ensures[err-not-removed] result2 != nil ==> !result0
+//@ ensures[no-trace] !result0 ==> kept_nhg(r.r.Afts) && hookCount == old(hookCount)
+//@ ensures[removed] result0 ==> e != nil && !(e.GetId() in dom(r.r.Afts.NextHopGroup)) && othersKept_nhg(r.r.Afts, e.GetId())
+//@ ensures[orig] result0 ==> result1 == old(r.r.Afts.NextHopGroup[e.GetId()])
+//@ ensures[hook] result0 ==> hookCount == old(hookCount) + ite(old(r.postChangeHook) != nil, 1, 0)
+//@ ensures[wf] holderWF(r)
+//@ assigns r.r.Afts.NextHopGroup[e.GetId()], hookCount
+//@ props C01 C03 C16 C12:safety
+
+//@ unit RIBHolder.DeleteNextHop
+//@ requires holderWF(r) && unixTS != nil
+//@ ensures[nil] e == nil ==> !result0 && result2 != nil
+//@ ensures[err-not-removed] result2 != nil ==> !result0
+//@ ensures[no-trace] !result0 ==> kept_nh(r.r.Afts) && hookCount == old(hookCount)
+//@ ensures[removed] result0 ==> e != nil && !(e.GetIndex() in dom(r.r.Afts.NextHop)) && othersKept_nh(r.r.Afts, e.GetIndex())
+//@ ensures[orig] result0 ==> result1 == old(r.r.Afts.NextHop[e.GetIndex()])
+//@ ensures[hook] result0 ==> hookCount == old(hookCount) + ite(old(r.postChangeHook) != nil, 1, 0)
+//@ ensures[wf] holderWF(r)
+//@ assigns r.r.Afts.NextHop[e.GetIndex()], hookCount
+//@ props C01 C03 C16 C12:safety
+
+//@ pred oneofOK(x Iface) = tagof(x) != 0 ==> payload(x) != 0
+
+//@ unit RIBHolder.locklessDeleteIPv4
+//@ requires holderWF(r) && unixTS != nil
+//@ ensures[missing] (!(prefix in old(dom(r.r.Afts.Ipv4Entry))) || old(r.r.Afts.Ipv4Entry[prefix]) == nil) ==> result0 != nil && kept_v4(r.r.Afts) && hookCount == old(hookCount)
+//@ ensures[removed] prefix in old(dom(r.r.Afts.Ipv4Entry)) && old(r.r.Afts.Ipv4Entry[prefix]) != nil ==> result0 == nil && !(prefix in dom(r.r.Afts.Ipv4Entry)) && othersKept_v4(r.r.Afts, prefix)
+//@   && hookCount == old(hookCount) + ite(old(r.postChangeHook) != nil, 1, 0)
+//@ ensures[wf] holderWF(r)
+//@ assigns r.r.Afts.Ipv4Entry[prefix], hookCount
+//@ props C08 C16 C12:safety
+
+//@ unit RIBHolder.locklessDeleteIPv6
+//@ requires holderWF(r) && unixTS != nil
+//@ ensures[missing] (!(prefix in old(dom(r.r.Afts.Ipv6Entry))) || old(r.r.Afts.Ipv6Entry[prefix]) == nil) ==> result0 != nil && kept_v6(r.r.Afts) && hookCount == old(hookCount)
+//@ ensures[removed] prefix in old(dom(r.r.Afts.Ipv6Entry)) && old(r.r.Afts.Ipv6Entry[prefix]) != nil ==> result0 == nil && !(prefix in dom(r.r.Afts.Ipv6Entry)) && othersKept_v6(r.r.Afts, prefix)
+//@   && hookCount == old(hookCount) + ite(old(r.postChangeHook) != nil, 1, 0)
+//@ ensures[wf] holderWF(r)
+//@ assigns r.r.Afts.Ipv6Entry[prefix], hookCount
+//@ props C08 C16 C12:safety
+
+//@ unit RIBHolder.locklessDeleteMPLS
+//@ requires holderWF(r) && unixTS != nil
+//@ ensures[missing] (!(label in old(dom(r.r.Afts.LabelEntry))) || old(r.r.Afts.LabelEntry[label]) == nil) ==> result0 != nil && kept_mpls(r.r.Afts) && hookCount == old(hookCount)
+//@ ensures[removed] label in old(dom(r.r.Afts.LabelEntry)) && old(r.r.Afts.LabelEntry[label]) != nil ==> result0 == nil && !(label in dom(r.r.Afts.LabelEntry)) && othersKept_mpls(r.r.Afts, label)
+//@   && hookCount == old(hookCount) + ite(old(r.postChangeHook) != nil, 1, 0)
+//@ ensures[wf] holderWF(r)
+//@ assigns r.r.Afts.LabelEntry[label], hookCount
+//@ props C08 C16 C12:safety
+
+//@ unit RIBHolder.locklessDeleteNHG
+//@ requires holderWF(r) && unixTS != nil
+//@ ensures[missing] (!(id in old(dom(r.r.Afts.NextHopGroup))) || old(r.r.Afts.NextHopGroup[id]) == nil) ==> result0 != nil && kept_nhg(r.r.Afts) && hookCount == old(hookCount)
+//@ ensures[removed] id in old(dom(r.r.Afts.NextHopGroup)) && old(r.r.Afts.NextHopGroup[id]) != nil ==> result0 == nil && !(id in dom(r.r.Afts.NextHopGroup)) && othersKept_nhg(r.r.Afts, id)
+//@   && hookCount == old(hookCount) + ite(old(r.postChangeHook) != nil, 1, 0)
+//@ ensures[wf] holderWF(r)
+//@ assigns r.r.Afts.NextHopGroup[id], hookCount, contents(r.refCounts.NextHop)
+//@ props C08 C16 C12:safety
+
+//@ unit RIBHolder.locklessDeleteNH
+//@ requires holderWF(r) && unixTS != nil
+//@ ensures[missing] (!(index in old(dom(r.r.Afts.NextHop))) || old(r.r.Afts.NextHop[index]) == nil) ==> result0 != nil && kept_nh(r.r.Afts) && hookCount == old(hookCount)
+//@ ensures[removed] index in old(dom(r.r.Afts.NextHop)) && old(r.r.Afts.NextHop[index]) != nil ==> result0 == nil && !(index in dom(r.r.Afts.NextHop)) && othersKept_nh(r.r.Afts, index)
+//@   && hookCount == old(hookCount) + ite(old(r.postChangeHook) != nil, 1, 0)
+//@ ensures[wf] holderWF(r)
+//@ assigns r.r.Afts.NextHop[index], hookCount
+//@ props C08 C16 C12:safety
+
+//@ unit RIBHolder.mplsExists
+//@ requires holderWF(r)
+//@ ensures result0 <==> boxed(aft.UnionUint32, label) in dom(r.r.Afts.LabelEntry)
+//@ assigns nothing
+//@ props C01 C12:safety
+
+//@ unit RIBHolder.retrieveMPLS
+//@ requires holderWF(r)
+//@ ensures result0 == r.r.Afts.LabelEntry[boxed(aft.UnionUint32, label)]
+//@ assigns nothing
+//@ props C01 C12:safety
+
+//@ unit RIBHolder.doDeleteMPLS
+//@ requires holderWF(r)
+//@ ensures !(boxed(aft.UnionUint32, label) in dom(r.r.Afts.LabelEntry))
+//@ assigns r.r.Afts.LabelEntry[boxed(aft.UnionUint32, label)]
 //@ props C01 C12:safety
 
